@@ -30,6 +30,9 @@ ATTRS = ['scheme', 'hostname', 'port', 'path', 'url', 'level', 'inline_level', '
          'include_directories', 'exclude_directories', 'accept', 'reject', 'span_hosts', 'span_hosts_allow',
          'table_hostnames', '_max_redirects', '_codes', '_repeat_codes', '_response', '_num_redirects', 'fields',
          'status_code', 'request', 'url_info']
+# private fields a constructor initialises with a literal, in the order of __init__ (their canonical names; a consistent
+# rename of a private field in the source is an alpha-renaming of the program and must not disturb the translation)
+LITERAL_FIELDS = {'RedirectTracker': ['_response', '_num_redirects']}
 # attribute reads that are @property methods with a translated body: attr -> (class, method)
 PROPERTIES = {'parent_url_info': ('URLProperties', 'parent_url_info')}
 # library calls -> builtin (receiver-less)
@@ -182,6 +185,48 @@ class Translator:
                        'URLFiltersPostURLImportSetupTask': 'wpull/application/tasks/rule.py'})
     URL_FUNCS = ('schemes_similar', 'is_subdir')
 
+    def field_alias(self, cls, where):
+        """{source name of a private field of cls: canonical name in ATTRS}.  A private field that __init__ fills from the
+        parameter p is canonically '_p' (or 'p'); the k-th field it fills with a literal is the k-th name of LITERAL_FIELDS[cls].
+        The identity on an unrenamed tree; must be injective."""
+        key = ('alias', cls)
+        if key in self.init_cache:
+            return self.init_cache[key]
+        alias = {}
+        try:
+            fields, _sig = self.ctor_fields(cls, where)
+        except Unsupported:
+            fields = []
+        lits = [f for f, (kind, _v) in fields if kind == 'lit']
+        for f, (kind, v) in fields:
+            if not f.startswith('_') or f.startswith('__'):
+                continue
+            if kind == 'param':
+                cands = [c for c in ('_' + v, v) if c in ATTRS]
+                if cands:
+                    alias[f] = cands[0]
+            elif cls in LITERAL_FIELDS and len(lits) == len(LITERAL_FIELDS[cls]):
+                alias[f] = LITERAL_FIELDS[cls][lits.index(f)]
+        if len(set(alias.values())) != len(alias):
+            alias = {}
+        self.init_cache[key] = alias
+        return alias
+
+    def class_const(self, cls, name):
+        """the literal a class-level constant NAME = <literal> of cls stands for, when nothing in the class assigns self.NAME"""
+        if cls not in self.CLASS_FILE:
+            return None
+        m = self.mod(self.CLASS_FILE[cls])
+        if cls not in m.classes or not name.isupper():
+            return None
+        consts = m.class_consts(cls)
+        if name not in consts:
+            return None
+        for n in ast.walk(m.classes[cls]):
+            if isinstance(n, ast.Attribute) and n.attr == name and isinstance(n.ctx, (ast.Store, ast.Del)):
+                return None
+        return (consts[name],)
+
     def ctor_fields(self, cls, where):
         """[(field, ('param', name) | ('lit', value))], Signature - from __init__"""
         if cls in self.init_cache:
@@ -243,6 +288,9 @@ class FnTranslator:
         return self.slots[name]
 
     def attr(self, name, node):
+        if name not in ATTRS and self.cls and isinstance(node, ast.Attribute) and isinstance(node.value, ast.Name) \
+                and node.value.id == 'self':
+            name = self.tr.field_alias(self.cls, self.where(node)).get(name, name)
         if name not in ATTRS:
             raise Unsupported('%s: attribute %r is not in the signature table' % (self.where(node), name))
         return 'A_' + name
@@ -277,6 +325,12 @@ class FnTranslator:
             if e.attr in PROPERTIES:
                 c, m = PROPERTIES[e.attr]
                 return '(ECall C_%s M_%s [%s])' % (c, m, self.expr(e.value))
+            if isinstance(e.value, ast.Name) and e.attr not in ATTRS:
+                # self.NAME / ClassName.NAME where NAME is a class-level literal constant: the literal
+                owner = self.cls if e.value.id in ('self', 'cls') else (e.value.id if e.value.id in CLASSES else None)
+                cv = self.tr.class_const(owner, e.attr) if owner else None
+                if cv is not None:
+                    return '(EConst %s)' % const_pv(cv[0], w)
             return '(EAttr %s %s)' % (self.expr(e.value), self.attr(e.attr, e))
         if isinstance(e, ast.BoolOp):
             op = 'EAnd' if isinstance(e.op, ast.And) else 'EOr'
@@ -331,9 +385,10 @@ class FnTranslator:
                     return '(ENew C_%s [])' % f.id
                 bound = dict(zip(sig.params[1:], sig.bind(pos, kw, w, skip=1)))
                 items = []
+                al = self.tr.field_alias(f.id, w)
                 for fld, (kind, v) in fields:
                     val = bound[v] if kind == 'param' else '(EConst %s)' % const_pv(v, w)
-                    items.append('(%s, %s)' % (self.attr(fld, e), val))
+                    items.append('(%s, %s)' % (self.attr(fld if fld in ATTRS else al.get(fld, fld), e), val))
                 return '(ENew C_%s %s)' % (f.id, coq_list(items))
             raise Unsupported('%s: call of %s' % (w, f.id))
         if isinstance(f, ast.Attribute):
@@ -533,7 +588,9 @@ def gen_redirect(tr):
     fields, sig = tr.ctor_fields(cls, rm.rel)
     params = sig.params[1:]
     items = []
+    alias = tr.field_alias(cls, rm.rel)
     for fld, (kind, v) in fields:
+        fld = fld if fld in ATTRS else alias.get(fld, fld)
         _check_shape(fld in ATTRS, '%s: field %s not in the signature table' % (rm.rel, fld))
         val = '(EVar %d)' % params.index(v) if kind == 'param' else '(EConst %s)' % const_pv(v, rm.rel)
         items.append('(A_%s, %s)' % (fld, val))
